@@ -563,6 +563,9 @@ def main():
             if a and a[0].startswith("ok") and any(x != a[0] for x in a + a2):
                 v["kind"] = "oracle"
                 v["detail"] = "record bytes depend on the order / shape in which fields are presented | " + v["detail"]
+            elif a and a[0].startswith("ok") and any(x.startswith("ok") for x in _b if x):
+                v["kind"] = "oracle"
+                v["detail"] = "a presentation with an unknown, repeated or missing field was accepted | " + v["detail"]
         elif v["case"].startswith("single ") and rt[:1] == ["ser"] and len(rt) > 1:
             # C18: marker C3 01 + little-endian CRC-64-AVRO of the canonical form; the model's
             # header passed that oracle (computed with the specification's CRC), so a different
@@ -585,6 +588,24 @@ def main():
                     elif strip(a).replace(" 1", " 0") != strip(b).replace(" 1", " 0"):
                         v["kind"] = "oracle"
                         v["detail"] = "slice and reader entry points give different values for one message | " + v["detail"]
+                if v["kind"] != "oracle":
+                    # the later entries read the message under another schema and damaged variants of
+                    # it: where the model (oracle passed) refuses from both entry points, so must the code
+                    mparts = split_out(v["model"])[0].split(" ; ")
+                    for k in range(2, min(len(parts), len(mparts))):
+                        if " / " not in parts[k] or " / " not in mparts[k]:
+                            continue
+                        ra, rb2 = [x.strip() for x in parts[k].split(" / ", 1)]
+                        ma, mb2 = [x.strip() for x in mparts[k].split(" / ", 1)]
+                        if ma.startswith("err") and mb2.startswith("err") and (ra.startswith("ok") or rb2.startswith("ok")):
+                            v["kind"] = "oracle"
+                            v["detail"] = ("a message with a damaged header, or written under a schema with another canonical "
+                                           "form, was decoded | " + v["detail"])
+                            break
+                        if ra.startswith("ok") != rb2.startswith("ok"):
+                            v["kind"] = "oracle"
+                            v["detail"] = "slice and reader entry points disagree on whether a message is accepted | " + v["detail"]
+                            break
         elif "READER-DIFFERS" in rt:
             v["kind"] = "oracle"
             v["detail"] = "the bytes just written decode to another value (or fail) through the reader entry point than from the slice | " + v["detail"]
@@ -657,9 +678,30 @@ def main():
                         why = "a framing error is reported more than once (the reader carries on after it)"
                 if why:
                     break
+            if why is None and v["case"].startswith("ocfr valid ") and split_out(v["model"])[1].startswith("ok"):
+                # a well-formed file: the model's outcome passed the oracle "the values read back are
+                # the values written", so a back-end whose yields differ from it (other than in the
+                # `borrowed` flags) does not read the file back as written
+                def strip_flags(x):
+                    t = x.split()
+                    for k in range(2, len(t)):
+                        if t[k - 2] in ("str", "bytes") and t[k - 1].startswith("x") and t[k] in ("0", "1"):
+                            t[k] = "0"
+                    return " ".join(t)
+                for i, r in enumerate(rb):
+                    if i < len(mb) and not r.startswith("init-err") and strip_flags(r) != strip_flags(mb[i]):
+                        why = f"a well-formed container file is not read back as written (back-end {i})"
+                        break
             if why:
                 v["kind"] = "oracle"
                 v["detail"] = why + " | " + v["detail"]
+        elif v["case"].startswith("ocfw ") and rt[:1] == ["build-err"] and split_out(v["model"])[0].split()[:1] != ["build-err"]:
+            v["kind"] = "oracle"
+            v["detail"] = "the container writer could not be started on a valid schema and metadata | " + v["detail"]
+        elif v.get("stream") in ("de-valid", "de-canon") and rt[:1] == ["err"] and split_out(v["model"])[0].startswith("ok ") \
+                and split_out(v["model"])[1].startswith("ok"):
+            v["kind"] = "oracle"
+            v["detail"] = "a valid encoding, which the target's entry points accept (model outcome Ok, oracle passed), was rejected | " + v["detail"]
         elif v["case"].startswith("reuse "):
             # C14: after every call, successful or not, every pooled buffer is empty
             for i, t in enumerate(rt):
